@@ -80,8 +80,3 @@ Definition last_seen (l : list (N * option N)) (p : N) : option N :=
 
 (* the messages read so far *)
 Definition received (x : cworld) (h : list wmsg) : list wmsg := firstn (N.to_nat (w_seq (cw x))) h.
-
-(* the run falls in the known deviation class: C32's release_buffered, reached through the PropertiesChanged
-   stream (SignalStream::new dropped a buffered NameOwnerChanged without new owner) *)
-Definition Known_C31 (pc : pcfg) (h : list wmsg) (sched : list caction) : Prop :=
-  w_lost (cw (crun pc h sched)) = true.
